@@ -272,10 +272,46 @@ pub fn run(input: &Value) -> Case {
                 if err {
                     n_err += 1;
                 }
-                let ev = TerminalEvent::KittyImage {
+                const MSGS: [&str; 6] = [
+                    "ENOENT:Put command refers to non-existent image",
+                    "EINVAL:Zero width/height not allowed",
+                    "ENOSPC:storage quota exceeded",
+                    "EBADF:bad image data",
+                    "E",
+                    "OK ",
+                ];
+                let msg = if err { MSGS[o["msg"].as_u64().unwrap_or(0) as usize % MSGS.len()] } else { "OK" };
+                let built_ev = TerminalEvent::KittyImage {
                     id,
                     placement: pl,
-                    error: if err { Some("ENOENT:Put command refers to non-existent image".to_string()) } else { None },
+                    error: if err { Some(msg.to_string()) } else { None },
+                };
+                // "wire": the response is written as the terminal would send it and read by the crate's own
+                // decoder; what comes out of the decoder is what the handler sees (and what the case records)
+                let mut ev = built_ev;
+                if o["wire"].as_bool().unwrap_or(false) {
+                    use surf_n_term::decoder::{Decoder, TTYEventDecoder};
+                    let mut text = format!("\x1b_Gi={}", id);
+                    if let Some(p) = pl {
+                        text.push_str(&format!(",p={}", p));
+                    }
+                    text.push_str(&format!(";{}\x1b\\", msg));
+                    let decoded = catch(move || {
+                        let mut dec = TTYEventDecoder::new();
+                        let mut out = vec![];
+                        let _ = dec.decode_into(std::io::Cursor::new(text.into_bytes()), &mut out);
+                        out
+                    });
+                    if let Some(mut evs) = decoded {
+                        if evs.len() == 1 && matches!(evs[0], TerminalEvent::KittyImage { .. }) {
+                            ev = evs.remove(0);
+                            tags.push("resp-via-decoder".into());
+                        }
+                    }
+                }
+                let (id, pl, err) = match &ev {
+                    TerminalEvent::KittyImage { id, placement, error } => (*id, *placement, error.is_some()),
+                    _ => (id, pl, err),
                 };
                 let r = if stopped {
                     None
@@ -288,7 +324,9 @@ pub fn run(input: &Value) -> Case {
                         (out, match r { Ok(false) => 0u8, Ok(true) => 1u8, Err(_) => 2u8 })
                     })
                 };
-                (format!("CResp {} {} {}", id, copt(pl.map(|p| p.to_string())), cbool(err)), r)
+                // is the error genuine (the terminal side is taken to have lost the image) or spurious?
+                let lost = o["lost"].as_bool().unwrap_or(true);
+                (format!("CResp {} {} {} {}", id, copt(pl.map(|p| p.to_string())), cbool(err), cbool(lost)), r)
             }
             _ => {
                 let ev = if o["which"].as_u64().unwrap_or(0) % 2 == 0 {
@@ -354,9 +392,22 @@ pub fn run(input: &Value) -> Case {
     let corner = named
         .iter()
         .any(|(c, p)| *p == (65534, 65535) && named.iter().any(|(c2, q)| c2 == c && *q == (65535, 65535)));
+    let mut classes: Vec<&str> = vec![];
     if corner {
-        j["known_class"] = json!(["pid-corner"]);
+        classes.push("pid-corner");
         tags.push("known:pid-corner".into());
+    }
+    // Known finding "id-collision": image ids are a 64-bit content hash reduced to 32 bits, so two different
+    // contents can get one id; the handler then takes the second for the first.  Histories holding two
+    // images of different content and equal id are in the class.
+    let ids: Vec<u64> = built.iter().map(|(img, _)| ids_of(img, None).0).collect();
+    let collision = (0..built.len()).any(|a| (0..a).any(|b| cids[a] != cids[b] && ids[a] == ids[b]));
+    if collision {
+        classes.push("id-collision");
+        tags.push("known:id-collision".into());
+    }
+    if !classes.is_empty() {
+        j["known_class"] = json!(classes);
     }
     let maxpix = contents.iter().map(|c| c.2.len()).max().unwrap_or(0);
     tags.push(format!("ops={}", match ops.len() { 0 => "0", 1 => "1", 2..=5 => "2-5", 6..=12 => "6-12", _ => "13+" }));
@@ -498,10 +549,27 @@ fn gen_history(rng: &mut Rng, big: u8) -> Value {
                         json!({"pos":[p.0,p.1]})
                     }
                 };
-                ops.push(json!({"op":"resp","img":k,"pl":pl,"err":true}))
+                ops.push(json!({"op":"resp","img":k,"pl":pl,"err":true,"lost":rng.chance(2, 3),
+                                "msg":rng.below(6),"wire":rng.chance(1, 3)}))
             }
-            17 => ops.push(json!({"op":"resp","img":k,"pl":Value::Null,"err":false})),
-            18 => ops.push(json!({"op":"resp","img":Value::Null,"id":rng.below(1u64<<32),"pl":{"raw":rng.below(1u64<<32)},"err":true})),
+            17 => {
+                // OK responses, with and without a placement
+                let pl = match rng.below(3) {
+                    0 => Value::Null,
+                    1 => json!({"raw": rng.below(1u64 << 32)}),
+                    _ => {
+                        let p = gen_pos(rng, &pool);
+                        json!({"pos":[p.0,p.1]})
+                    }
+                };
+                ops.push(json!({"op":"resp","img":k,"pl":pl,"err":false,"wire":rng.chance(1, 2)}))
+            }
+            18 => {
+                // ids no image of the history has, incl. 0 (what the decoder reports when the i key is missing)
+                let id = if rng.chance(1, 3) { 0 } else { rng.below(1u64 << 32) };
+                ops.push(json!({"op":"resp","img":Value::Null,"id":id,"pl":{"raw":rng.below(1u64<<32)},"err":true,
+                                "msg":rng.below(6),"wire":rng.chance(1, 3),"lost":rng.chance(1, 2)}))
+            }
             _ => ops.push(json!({"op":"other","which":rng.below(2)})),
         }
     }
@@ -516,14 +584,27 @@ fn gen_history(rng: &mut Rng, big: u8) -> Value {
 pub fn generate(rng: &mut Rng, n: usize, tier: &str) -> Vec<Value> {
     let mut v = vec![];
     // fixed part: one draw of every small size, the chunk boundaries, every corner position
-    let mut sizes = vec![(0usize, 0usize), (0, 3), (3, 0), (1, 1), (1, 2), (2, 1), (3, 3), (32, 24), (769, 1), (48, 32), (40, 40)];
-    if tier == "thorough" {
-        sizes.push((64, 64));
-    }
-    for (h, w) in sizes {
+    for (h, w) in [(0usize, 0usize), (0, 3), (3, 0), (1, 1), (1, 2), (2, 1), (3, 3)] {
         v.push(json!({"quiet": false, "images":[{"h":h,"w":w,"seed":h*100+w,"style":0}],
                       "ops":[{"op":"draw","img":0,"pos":[3,4]},{"op":"draw","img":0,"pos":[3,4]},{"op":"erase","img":0,"pos":[3,4]}]}));
     }
+    // large images: 1 chunk exactly full (32x24), 4096+8 (769x1), 2 x 4096 (48x32), 3 chunks (40x40),
+    // 3 x 4096 exactly (48x48), 6 chunks (64x64); a 768-pixel crop of a larger image (strided view whose
+    // payload is exactly one full chunk); a large draw, an error response and the re-transmission.
+    // They are placed at regular distances below so that no case shard gets more than one or two of them.
+    let mut bigs: Vec<Value> = vec![];
+    for (h, w) in [(32usize, 24usize), (769, 1), (48, 32), (40, 40), (48, 48), (64, 64)] {
+        bigs.push(json!({"quiet": false, "images":[{"h":h,"w":w,"seed":h*100+w,"style":0}],
+                      "ops":[{"op":"draw","img":0,"pos":[3,4]},{"op":"draw","img":0,"pos":[3,4]},{"op":"erase","img":0,"pos":[3,4]}]}));
+    }
+    bigs.push(json!({"quiet": true, "via": "box", "images":[{"h":40,"w":30,"seed":4030,"style":4,"crop":[4,36,3,27]}],
+                  "ops":[{"op":"draw","img":0,"pos":[0,0]},{"op":"erase","img":0,"pos":[0,0]}]}));
+    bigs.push(json!({"quiet": false, "images":[{"h":30,"w":40,"seed":3040,"style":0,"t":true,"crop":[8,40,6,30]}],
+                  "ops":[{"op":"draw","img":0,"pos":[9,9]}]}));
+    bigs.push(json!({"quiet": false, "images":[{"h":40,"w":40,"seed":4040,"style":0}],
+                  "ops":[{"op":"draw","img":0,"pos":[7,7]},{"op":"resp","img":0,"pl":{"pos":[7,7]},"err":true,"lost":true,"wire":true},
+                         {"op":"draw","img":0,"pos":[8,8]},{"op":"resp","img":0,"pl":Value::Null,"err":true,"lost":false},
+                         {"op":"draw","img":0,"pos":[7,7]}]}));
     for p in CORNERS {
         for q in CORNERS {
             if p < q {
@@ -545,6 +626,13 @@ pub fn generate(rng: &mut Rng, n: usize, tier: &str) -> Vec<Value> {
     for d in ["kitty", "kitty-boxed", "dummy", "dummy-boxed"] {
         v.push(json!({"kind_of": d}));
     }
+    // spurious error responses: the terminal side keeps image and placements, the handler re-transmits
+    v.push(json!({"quiet": true, "images":[{"h":3,"w":2,"seed":2,"style":0},{"h":1,"w":2,"seed":5,"style":0}],
+        "ops":[{"op":"draw","img":0,"pos":[0,0]},{"op":"draw","img":0,"pos":[5,7]},{"op":"draw","img":1,"pos":[5,7]},
+               {"op":"resp","img":0,"pl":{"pos":[5,7]},"err":true,"lost":false},
+               {"op":"erase","img":0,"pos":[0,0]},
+               {"op":"resp","img":0,"pl":Value::Null,"err":true,"lost":false},
+               {"op":"draw","img":0,"pos":[1,1]},{"op":"erase","img":1,"pos":[5,7]},{"op":"erase","img":0,"pos":Value::Null}]}));
     // placement ids a terminal could report, incl. 0, 1, the largest id and values beyond 32 bits
     for raw in [0u64, 1, 2, 458758, 4294967295, 4294967296, u64::MAX] {
         v.push(json!({"quiet": true, "images":[{"h":2,"w":3,"seed":3,"style":0}],
@@ -554,9 +642,15 @@ pub fn generate(rng: &mut Rng, n: usize, tier: &str) -> Vec<Value> {
     // large images (several chunks) are spread over the run so that the case shards stay balanced
     let every = if tier == "thorough" { 12 } else { 25 };
     let mut k = 0;
-    while v.len() < n {
+    while v.len() + bigs.len() < n {
         v.push(gen_history(rng, if k % every == 3 { if tier == "thorough" { 2 } else { 1 } } else { 0 }));
         k += 1;
+    }
+    // spread the large fixed cases
+    let step = (v.len() / (bigs.len() + 1)).max(1);
+    for (i, b) in bigs.into_iter().enumerate() {
+        let at = ((i + 1) * step).min(v.len());
+        v.insert(at, b);
     }
     v
 }
